@@ -31,12 +31,17 @@ type SourceCfg struct {
 	OpenErr   string `json:"open_err,omitempty"`    // Open fails with this error ("fatal:" prefix is kept verbatim)
 	ReadErrAt int    `json:"read_err_at,omitempty"` // after emitting this index the stream is closed with ReadErr
 	ReadErr   string `json:"read_err,omitempty"`
+	// ReadErrClose: the read error kills the whole stream (acks can no longer be delivered either);
+	// default: only reads fail, the plugin still takes acknowledgments
+	ReadErrClose bool `json:"read_err_close,omitempty"`
 	// ill-formed shapes (C09)
 	EmptyPosAt int `json:"empty_pos_at,omitempty"` // record with this index carries an empty position
 	DupPosAt   int `json:"dup_pos_at,omitempty"`   // record with this index repeats the previous position
 	// ack stream faults (C02)
 	FailAckSends int    `json:"fail_ack_sends,omitempty"` // the next k ack sends fail transiently (per run)
 	TeardownErr  string `json:"teardown_err,omitempty"`
+	// FaultRuns: open / read faults apply only to the first FaultRuns runs of the plugin (0 = always)
+	FaultRuns int `json:"fault_runs,omitempty"`
 }
 
 // Source is a fake source plugin. One object lives for the whole scenario (across runs and
@@ -58,6 +63,7 @@ type Source struct {
 	pruned   int // highest index the upstream has discarded (pruning mode)
 	maxAcked int
 	opens    int
+	attempts int
 	tears    int
 	st       *srcStream
 	cancel   context.CancelFunc
@@ -111,12 +117,15 @@ func (p *Source) Open(_ context.Context, r pconnector.SourceOpenRequest) (pconne
 			idx = -1
 		}
 	}
-	if p.Cfg.OpenErr != "" {
+	if p.Cfg.OpenErr != "" && (p.Cfg.FaultRuns == 0 || p.attempts < p.Cfg.FaultRuns) {
+		p.attempts++
+		p.W.Log.Add("Fault", "what", "open-err", "conn", p.Cfg.ID, "err", p.Cfg.OpenErr)
 		p.W.Log.Add("Open", "conn", p.Cfg.ID, "key", p.Cfg.ID, "kind", "source", "idx", idx, "pos", raw, "ok", false)
 		return pconnector.SourceOpenResponse{}, toErr(p.Cfg.OpenErr)
 	}
 	p.run++
 	p.opens++
+	p.attempts++
 	p.W.Log.Add("Open", "conn", p.Cfg.ID, "key", p.Cfg.ID, "kind", "source", "idx", idx, "pos", raw, "ok", true, "run", p.run,
 		"pruned", p.pruned)
 	if idx >= 0 {
@@ -162,6 +171,16 @@ func (p *Source) batchSize() int {
 
 func (p *Source) emitLoop(ctx context.Context, st *srcStream, run int) {
 	srv := st.Server()
+	if p.Cfg.ReadErrAt < 0 && (p.Cfg.FaultRuns == 0 || run <= p.Cfg.FaultRuns) {
+		// the very first read of this run fails
+		p.W.Log.Add("Fault", "what", "read-err", "conn", p.Cfg.ID, "err", p.Cfg.ReadErr)
+		if p.Cfg.ReadErrClose {
+			st.s.close(toErr(p.Cfg.ReadErr))
+		} else {
+			st.s.failRecv(toErr(p.Cfg.ReadErr))
+		}
+		return
+	}
 	for {
 		p.mu.Lock()
 		for {
@@ -201,7 +220,7 @@ func (p *Source) emitLoop(ctx context.Context, st *srcStream, run int) {
 			p.next = i
 			p.lastPos = pos
 		}
-		failAfter := p.Cfg.ReadErrAt > 0 && p.next >= p.Cfg.ReadErrAt
+		failAfter := p.Cfg.ReadErrAt > 0 && p.next >= p.Cfg.ReadErrAt && (p.Cfg.FaultRuns == 0 || run <= p.Cfg.FaultRuns)
 		// env -> engine input: logged before it is handed over
 		p.W.Log.Add("EmitBatch", "src", p.Cfg.ID, "idxs", idxs, "run", run)
 		for _, i := range idxs {
@@ -218,7 +237,11 @@ func (p *Source) emitLoop(ctx context.Context, st *srcStream, run int) {
 		}
 		if failAfter {
 			p.W.Log.Add("Fault", "what", "read-err", "conn", p.Cfg.ID, "err", p.Cfg.ReadErr)
-			st.s.close(toErr(p.Cfg.ReadErr))
+			if p.Cfg.ReadErrClose {
+				st.s.close(toErr(p.Cfg.ReadErr))
+			} else {
+				st.s.failRecv(toErr(p.Cfg.ReadErr))
+			}
 			return
 		}
 	}
@@ -287,6 +310,9 @@ func (p *Source) Ungate() {
 	p.cond.Broadcast()
 	p.mu.Unlock()
 }
+
+// Opens returns how often the plugin was opened successfully.
+func (p *Source) Opens() int { p.mu.Lock(); defer p.mu.Unlock(); return p.opens }
 
 // AllAcked reports whether every record of the source has been acknowledged to the plugin.
 func (p *Source) AllAcked() bool {
